@@ -195,7 +195,7 @@ _amend('C19', more=('Session 3: (a) the C type checker decides "no store through
                     '(b) htp_mpart_part_destroy is enforced with close() replaced by a stub whose precondition is false: a descriptor number is released only where the upload ends, never twice by one parser (interference through the process descriptor table).'),
        technique='dfcc frame (assigns) obligations of all enforced contracts + syntactic scan of the assigns clauses + static-storage scan (gcc -c, nm) + const-typedef type check of the configuration',
        note='C19: thread schedules are not explored (no thread model in CBMC contracts); umask() around mkstemp is process-wide (observation); stores through casts / memcpy and objects the configuration only points to are outside the const scan.')
-_amend('C01', more=('Session 3: the quick tier runs every unit of every property except the five that need more than 150 s alone (REQ_HEADERS, RES_HEADERS, two RES_LINE cases, the unbounded URI splitter: they run in the quick tier of C09 / C03 / C10 / C13 and in C01's thorough tier). New teardown units: per-transaction body hooks, connp / conn / tx / config life cycle; three genuine defects found by units on the unchanged tree are repaired (response-body hook leak, parser destroy left transactions dangling, close un-sticking STOP).'),
+_amend('C01', more=('Session 3: the quick tier runs every unit of every property except the five that need more than 150 s alone (REQ_HEADERS, RES_HEADERS, two RES_LINE cases, the unbounded URI splitter: they run in the quick tier of C09 / C03 / C10 / C13 and in the thorough tier of C01). New teardown units: per-transaction body hooks, connp / conn / tx / config life cycle; three genuine defects found by units on the unchanged tree are repaired (response-body hook leak, parser destroy left transactions dangling, close un-sticking STOP).'),
        note='C01 scope = the functions under contract listed in evidence; NOT verified: transcoder / iconv, file extraction I/O, LZMA/zlib internals, the real htp_log (vsnprintf), debug printers; callbacks that destroy the transaction they are called for.')
 _amend('C16', more='Session 3: the WAIT_RESPONSE post-condition is now taken from the property (the request side stays suspended until the status line of a FINAL response has been seen; an interim 100 Continue is not the answer) - the defect this exposed is repaired.')
 _amend('C04', more='Session 3: htp_conn_remove_tx is additionally checked by a loop-structure-independent unit (capacity 4, every ring position, stale tx->index); htp_connp_tx_remove serves C04.')
